@@ -6,7 +6,7 @@ the normal forms (checked by substitution); (R2) decision table of the rule sele
 (R3) special unit types precede the standard type and every registered type defines _istype;
 (R4) failure atomicity of to(): on no path does a statement that may raise follow a store to self;
 (R5) dimension equality compares every component by value (fraction cross-multiplication).
-NOT decided: element-wise numpy behaviour, size of rounding errors, Decimal arithmetic."""
+NOT decided: element-wise numpy behaviour, size of rounding errors, Decimal arithmetic. (R6) a conversion does not write to the operand it converts (effect analysis shared with C07.R1)."""
 import ast
 
 from ..model import AnalysisError, dotted_name, methods, norm, walk_no_nested
